@@ -111,6 +111,7 @@ def run(pid, tier, seed, replay=None):
         V.extra["simulated_behaviours"] = len(sim)
         for j, h in enumerate(sim):
             scripts.append(("s%d" % j,) + hs.from_tlc(h, hs.KINDS[(j + seed) % len(hs.KINDS)], rng.choice([0, 1, 2, 3]), rng, audit_every=0.4))
+        scripts += hs.self_scripts(rng, quick)
         nrand = 140 if quick else 2000
         for j in range(nrand):
             scripts.append(("r%d" % j,) + hs.gen_random(rng, max_ops=14 if quick else 24))
